@@ -39,10 +39,10 @@ func init() {
 // leaf.n -> n through a cascade-delete fk index (non-null), so chains leaf -> n -> n -> ... exist
 func wiringCyc() *wiring {
 	return &wiring{Name: "cyc", Stores: []*sStore{
-		{Name: "n", Fields: []sField{{"name", false}, {"next", true}}},
-		{Name: "p", Fields: []sField{{"q", true}}},
-		{Name: "q", Fields: []sField{{"p", true}}},
-		{Name: "leaf", Fields: []sField{{"n", false}}},
+		{Name: "n", Fields: []sField{{Name: "name"}, {Name: "next", Ptr: true}}},
+		{Name: "p", Fields: []sField{{Name: "q", Ptr: true}}},
+		{Name: "q", Fields: []sField{{Name: "p", Ptr: true}}},
+		{Name: "leaf", Fields: []sField{{Name: "n"}}},
 	}, Script: []wiringDecl{
 		{Kind: "fkcons", Store: "n", Field: "next", Target: "n", Nullable: true, Casc: "D"},
 		{Kind: "fkcons", Store: "p", Field: "q", Target: "q", Nullable: true, Casc: "D"},
